@@ -18,10 +18,12 @@ def rand_rho(rng, n, kind):
     return r / np.trace(r).real
 
 
-def validity(rho, pure0, tol=1e-9):
+def validity(rho, pure0, tol=1e-9, tol_exact=1e-9):
+    """tol_exact: Hermiticity and trace (preserved exactly by both integrators, C02 theorems);
+    tol: populations / purity / positivity (exact for 'exp'; integrator accuracy for 'linear-rk4', which is not unitary)"""
     n = rho.shape[0]
-    if np.max(np.abs(rho - rho.conj().T)) > tol: return "Hermitian (max |rho - rho^dagger| = %.2e)" % np.max(np.abs(rho - rho.conj().T))
-    if abs(np.trace(rho).real - 1.0) > tol: return "unit trace (trace = %r)" % np.trace(rho)
+    if np.max(np.abs(rho - rho.conj().T)) > tol_exact: return "Hermitian (max |rho - rho^dagger| = %.2e)" % np.max(np.abs(rho - rho.conj().T))
+    if abs(np.trace(rho).real - 1.0) > tol_exact: return "unit trace (trace = %r)" % np.trace(rho)
     d = np.real(np.diag(rho))
     if np.any(d < -tol) or np.any(d > 1 + tol): return "populations in [0,1] (%r)" % d.tolist()
     if pure0 and np.max(np.abs(rho @ rho - rho)) > 10 * tol: return "a pure state stays pure (max |rho^2 - rho| = %.2e)" % np.max(np.abs(rho @ rho - rho))
@@ -85,7 +87,7 @@ def run(tier, seed):
         # the statement on every logged density matrix
         collapsed = bool(getattr(log, "events", {}).get("collapse"))
         for s in log:
-            f = validity(np.asarray(s["density_matrix"]), pure0 and not collapsed, tol=1e-9 if integ == "exp" else 1e-6)
+            f = validity(np.asarray(s["density_matrix"]), pure0 and not collapsed, tol=1e-9 if integ == "exp" else 3e-4)
             if f:
                 bad.append(dict(failed="density matrix stays " + f, case=dict(info, time=s["time"]))); break
         res.count("representation/" + info["representation"] + "/" + integ)
